@@ -10,6 +10,12 @@ from .chars import SymStr
 from .load import repo
 
 
+def _mm(what, so, ro):
+    a, b = repr(so), repr(ro)
+    i = next((i for i in range(min(len(a), len(b))) if a[i] != b[i]), min(len(a), len(b)))
+    return {"what": what, "at": i, "sym": a[max(0, i - 120):i + 120], "real": b[max(0, i - 120):i + 120]}
+
+
 def _cand(name, args, v, kwargs=None):
     return {"oracle": name, "args": list(args), "kwargs": kwargs or {}, "v": v}
 
@@ -84,13 +90,13 @@ def A_harness(textfn, do_tokens=False, do_parse=True, mode="exec", path_oracles=
                 so, ro = levela.observable(tk, tpl, m), levela.observable(rk, rpl)
                 rec["validated"] += 1
                 if so != ro:
-                    rec["mismatch"] = {"what": "tokens", "sym": repr(so)[:300], "real": repr(ro)[:300]}
+                    rec["mismatch"] = _mm("tokens", so, ro)
             if do_parse:
                 rk, rpl = oracles.run_parse(X, w, md, 4.0, **parse_kw)
                 so, ro = levela.observable(pk, ppl, m), levela.observable(rk, rpl)
                 rec["validated"] += 1
                 if so != ro:
-                    rec["mismatch"] = {"what": "parse", "sym": repr(so)[:300], "real": repr(ro)[:300]}
+                    rec["mismatch"] = _mm("parse", so, ro)
         # --- intrinsic verdicts of the symbolic run (hold for the whole path class)
         if do_tokens and tk not in oracles.ALLOWED_C03 and "c03" in path_oracles:
             rec["viol"].append(_cand("c03", [w, md], {"kind": "tokenizer-" + tk, "observed": tk}, parse_kw))
@@ -130,9 +136,12 @@ def B_harness(rowsfn, mode="exec", path_oracles=(), symbolic_gaps=True, parse_kw
         rp = repo()
         rows = rowsfn(ex)
         md = mode
+        indents = None
         if isinstance(rows, tuple):
             rows, md = rows
-        st = levelb.Stream(ex, rows, symbolic_gaps=symbolic_gaps)
+        elif isinstance(rows, dict):
+            indents, md, rows = rows.get("indents"), rows.get("mode", mode), rows["rows"]
+        st = levelb.Stream(ex, rows, symbolic_gaps=symbolic_gaps, indents=indents)
         kind, payload = levelb.parse_stream(st, md, **parse_kw)
         m = st.witness()
         w = st.render(m)
@@ -147,11 +156,13 @@ def B_harness(rowsfn, mode="exec", path_oracles=(), symbolic_gaps=True, parse_kw
         if not rec["realizable"]:
             rec["outcome"] = "unrealizable"
             return rec
+        if extra:
+            extra(ex, rec, st, payload, kind, m, w, md)
         rk2, rpl2 = oracles.run_parse(X, w, md, 4.0, **parse_kw)
         so, ro = levela.observable(kind, payload, m), levela.observable(rk2, rpl2)
         rec["validated"] += 1
         if so != ro:
-            rec["mismatch"] = {"what": "parse(B)", "sym": repr(so)[:300], "real": repr(ro)[:300]}
+            rec["mismatch"] = _mm("parse(B)", so, ro)
         if kind not in allowed_outcomes and "c03" in path_oracles:
             rec["viol"].append(_cand("c03", [w, md], {"kind": "parser-" + kind, "observed": kind}, parse_kw))
         for name in path_oracles:
@@ -161,7 +172,5 @@ def B_harness(rowsfn, mode="exec", path_oracles=(), symbolic_gaps=True, parse_kw
             v = f(X, w) if name in ("c08", "c09") else f(X, w, md)
             if v is not None:
                 rec["viol"].append(_cand(name, [w] if name in ("c08", "c09") else [w, md], v))
-        if extra:
-            extra(ex, rec, st, payload, kind, m, w, md)
         return rec
     return harness
